@@ -57,7 +57,7 @@ fn attr_type(s: &mut Src) -> RType {
         _ => {
             let (min, max) = gen::int_range(s);
             let (scale, offset) = gen::scale_offset(s);
-            RType::Scaled { min, max, scale: F64(scale.abs()), offset: F64(offset) }
+            RType::Scaled { min, max, scale: F64(scale), offset: F64(offset) }
         }
     }
 }
@@ -224,7 +224,11 @@ fn effective_limits(case: &Case, a: &Attr, all: &[&Attr]) -> Option<(Option<Limi
 fn check_attr(name: &str, a: &Attr, lim: Option<(Option<LimitVal>, Option<LimitVal>)>, got_on: &[f32], got_off: &[f32], v: &mut Verdict) -> Result<(), String> {
     let spec = range_spec(lim, &a.ty);
     let mut prev: Option<f32> = None;
-    for (i, val) in a.vals.iter().enumerate() {
+    // ascending in the real value (a negative scale reverses the raw order)
+    let mut order: Vec<usize> = (0..a.vals.len()).collect();
+    order.sort_by(|x, y| a.vals[*x].real(&a.ty).partial_cmp(&a.vals[*y].real(&a.ty)).unwrap_or(std::cmp::Ordering::Equal));
+    for i in order {
+        let val = &a.vals[i];
         let x = val.real(&a.ty);
         let g = got_on[i];
         let e = match &spec {
@@ -269,7 +273,7 @@ impl Check for C13 {
     const ID: &'static str = "C13";
     fn rule() -> String {
         "One cloud with an intensity record and/or colour records of every data type (single/double with none/both/one declared bound incl. \
-         +-f64::MAX, integer and scaled integer of every bit width with positive scale), limit settings {absent, complete same-kind pairs, partial, \
+         +-f64::MAX, integer and scaled integer of every bit width, positive and negative scale), limit settings {absent, complete same-kind pairs, partial, \
          equal, narrower than the type range, extreme (+-f64::MAX, i64 extremes, f32 extremes, subnormal width), scaled-integer kind}, 6..14 stored \
          values per attribute sorted ascending incl. type min/max, limit min/max, midpoints; file written by the crate's writer (limit override API) \
          or by the independent encoder (arbitrary XML limits). Oracle: with normalisation on every delivered component is finite, in [0,1], within \
@@ -280,7 +284,7 @@ impl Check for C13 {
             .into()
     }
     fn assumptions() -> Vec<String> {
-        vec!["NaN limits / NaN type bounds and inverted limits are outside the stated limit settings (C08 covers 'no panic' for them)".into(), "scaled integer colour/intensity types use a positive scale".into()]
+        vec!["NaN limits / NaN type bounds and inverted limits are outside the stated limit settings (C08 covers 'no panic' for them)".into()]
     }
     fn budget(t: Tier) -> usize {
         t.pick(3000, 100_000)
